@@ -5,7 +5,7 @@
 From AF Require Import Proofs.MemFileProof.
 From AF Require Import Lib.Bytes Lib.Path Lib.Ops Gen.Consts Model.MemFile Model.MemFs Model.WfOps Model.Posix
   Proofs.MemFsPath Proofs.MemFsBasics Proofs.MemFsWF Proofs.MemFsStep Proofs.MemFsRename Proofs.MemFsInv
-  Proofs.MemFsNoop Proofs.MemFsList Proofs.MemFsSim.
+  Proofs.MemFsNoop Proofs.MemFsList Proofs.MemFsSim Proofs.MemFsSimInv.
 Local Open Scope Z_scope.
 
 (* 1. The per-directory child index mirrors the path map after every well-formed sequence
@@ -114,13 +114,13 @@ Print Assumptions C01_rename_moves_subtree.
 Theorem C01_simulation : forall ops, wf_seq_sim m_init ops = true ->
   mproj_all ops (snd (run_steps m_step m_init ops)) = snd (p_run p_init ops) /\
   Observe (fst (run_steps m_step m_init ops)) (fst (p_run p_init ops)).
-Proof. exact simulation. Qed.
+Proof. exact simulation0. Qed.
 Print Assumptions C01_simulation.
 
 (* the one-step form, from any related pair of states *)
-Theorem C01_simulation_step : forall s t o, Rsim s t -> wf_op_sim s o = true ->
+Theorem C01_simulation_step : forall s t o, Rsim s t -> pvalid t -> wf_op_sim s o = true ->
   Rsim (fst (m_step s o)) (fst (p_step t o)) /\ mproj o (snd (m_step s o)) = snd (p_step t o).
-Proof. exact sim_step. Qed.
+Proof. intros s t o R Hv Hwf. exact (sim_step s t o R (wf_op_sim_sim s t o R Hv Hwf)). Qed.
 Print Assumptions C01_simulation_step.
 
 (* ---------- non-vacuity ---------- *)
